@@ -371,6 +371,30 @@ func (ck *Check) qPredicate(ctx *Ctx, p *Term, elem *Term, depth int) *Formula {
 		if r, ok := ck.qResult(ch, cf, depth); ok {
 			return r
 		}
+	case "call":
+		// a predicate factory: h(args) returns a closure over its parameters
+		h := p.Fn
+		if h == nil || !ck.P.inRepo(h) || h.Blocks == nil || len(h.Blocks) != 1 {
+			return nil
+		}
+		r, ok := h.Blocks[0].Instrs[len(h.Blocks[0].Instrs)-1].(*ssa.Return)
+		if !ok || len(r.Results) != 1 {
+			return nil
+		}
+		mc, ok := r.Results[0].(*ssa.MakeClosure)
+		if !ok {
+			return nil
+		}
+		hc := ctx.childTermQ(p)
+		ch := hc.closureCtx(mc, mc, []*Term{elem})
+		if ch == nil {
+			return nil
+		}
+		ch.depth = 0
+		cf, _ := mc.Fn.(*ssa.Function)
+		if r, ok := ck.qResult(ch, cf, depth); ok {
+			return r
+		}
 	case "func":
 		if p.Fn != nil && ck.P.inRepo(p.Fn) && p.Fn.Blocks != nil && len(p.Fn.Params) == 1 {
 			call := &Term{Kind: "call", Name: funcID(p.Fn), Fn: p.Fn, Obj: p.Fn.Object(), Args: []*Term{elem}}
